@@ -41,7 +41,7 @@ def atxJson (a : ATx) : Json :=
     ("collateral", txInsJson a.collateral),
     ("signers", .arr (a.requiredSigners.map jhex).toArray),
     ("refs", txInsJson a.referenceInputs),
-    ("network", optInt a.networkId), ("donation", optInt a.donation), ("certs", Json.num (a.certs : Int)),
+    ("network", optInt a.networkId), ("donation", optInt a.donation), ("certs", Json.arr (a.certs.map fun c => Json.arr #[Json.bool c.credIsScript, jhex c.cred, jhex c.drep]).toArray),
     ("sdh", a.hasScriptDataHash), ("adh", a.hasAuxDataHash),
     ("metadata", .arr (a.metadata.map fun (k, v) => Json.arr #[jint k, metaJson v]).toArray),
     ("redeemers", .arr (a.redeemers.map fun ((t, i), d) =>
